@@ -196,6 +196,11 @@ class Impl:
             self.sessions[sid] = s
             self.entropies[sid] = e
             return "ok"
+        if op == "paramsopt":      # `_Params(group, ...)` with the seed arguments marked `~` omitted (constructor defaults)
+            pid, gid = int(ws[1]), int(ws[2])
+            kw = {k: unhx(v) for k, v in zip("MNS", ws[3:6]) if v != "~"}
+            self.params[pid] = params_mod._Params(self.groups[gid], **kw)
+            return "ok"
         if op == "params":
             pid, gid = int(ws[1]), int(ws[2])
             self.params[pid] = params_mod._Params(self.groups[gid], M=unhx(ws[3]), N=unhx(ws[4]), S=unhx(ws[5]))
